@@ -200,34 +200,42 @@ Same(x, y) ==
        [] OTHER -> Eq(x, y)
 
 (***************************************************************************)
-(* Sorting.  keys is the sequence of sort keys of the elements; the result *)
-(* is the permutation (sequence of indices into the input) a STABLE sort    *)
-(* produces: ascending by key, elements with equal keys in input order.     *)
-(* reverse sorts descending and - the sort being stable - still keeps       *)
-(* elements with equal keys in input order (Python; doc/spec.md: "The sort  *)
-(* algorithm is stable").  Defined only if every two keys are ordered.      *)
+(* Sorting.  The elements are numbered 1..n and C(a, b) is the three-way   *)
+(* order (Ord) of the sort keys of elements a and b.  The result is the    *)
+(* permutation (sequence of indices into the input) a STABLE sort produces: *)
+(* ascending by key, elements with equal keys in input order.  reverse      *)
+(* sorts descending and - the sort being stable - still keeps elements with *)
+(* equal keys in input order (Python; doc/spec.md: "The sort algorithm is   *)
+(* stable").  Defined only if every two keys are ordered.                   *)
 (***************************************************************************)
-AllOrdered(keys) == \A a \in 1..Len(keys) : \A b \in (a + 1)..Len(keys) : Ord(keys[a], keys[b]) # Unord
+AllOrderedBy(n, C(_, _)) == \A a \in 1..n : \A b \in (a + 1)..n : C(a, b) # Unord
 
 \* a goes strictly before b in the requested direction
-Before(ka, kb, rev) == IF rev THEN Ord(kb, ka) = -1 ELSE Ord(ka, kb) = -1
+BeforeBy(C(_, _), a, b, rev) == IF rev THEN C(b, a) = -1 ELSE C(a, b) = -1
 
-RECURSIVE SortFrom(_, _, _, _)
-SortFrom(keys, rev, n, acc) ==           \* acc: sorted indices of the first n-1 elements
-  IF n > Len(keys) THEN acc
-  ELSE LET p == Cardinality({k \in 1..Len(acc) : ~Before(keys[n], keys[acc[k]], rev)})
-       IN SortFrom(keys, rev, n + 1, SubSeq(acc, 1, p) \o <<n>> \o SubSeq(acc, p + 1, Len(acc)))
-StableSortPerm(keys, rev) == SortFrom(keys, rev, 1, <<>>)
+RECURSIVE SortFromBy(_, _, _, _, _)
+SortFromBy(C(_, _), n, rev, a, acc) ==       \* acc: sorted indices of elements 1..a-1; insert a after its ties
+  IF a > n THEN acc
+  ELSE LET p == Cardinality({k \in 1..Len(acc) : ~BeforeBy(C, a, acc[k], rev)})
+       IN SortFromBy(C, n, rev, a + 1, SubSeq(acc, 1, p) \o <<a>> \o SubSeq(acc, p + 1, Len(acc)))
+StableSortPermBy(n, C(_, _), rev) == SortFromBy(C, n, rev, 1, <<>>)
 
 \* what makes a result of sorted() right, stated without an algorithm
-IsStableSorted(keys, rev, perm) ==
-  /\ Len(perm) = Len(keys)
-  /\ {perm[k] : k \in 1..Len(perm)} = 1..Len(keys)                       \* a permutation
+IsStableSortedBy(n, C(_, _), rev, perm) ==
+  /\ Len(perm) = n
+  /\ {perm[k] : k \in 1..Len(perm)} = 1..n                                    \* a permutation
   /\ \A k \in 1..(Len(perm) - 1) :
-        /\ ~Before(keys[perm[k + 1]], keys[perm[k]], rev)                \* in order
-        /\ (~Before(keys[perm[k]], keys[perm[k + 1]], rev) => perm[k] < perm[k + 1])   \* ties keep input order
+        /\ ~BeforeBy(C, perm[k + 1], perm[k], rev)                            \* in order
+        /\ (~BeforeBy(C, perm[k], perm[k + 1], rev) => perm[k] < perm[k + 1])  \* ties keep input order
 
 \* extrema: index sets
-MinIdx(keys) == {a \in 1..Len(keys) : \A b \in 1..Len(keys) : Ord(keys[b], keys[a]) # -1}
-MaxIdx(keys) == {a \in 1..Len(keys) : \A b \in 1..Len(keys) : Ord(keys[b], keys[a]) # 1}
+MinIdxBy(n, C(_, _)) == {a \in 1..n : \A b \in 1..n : C(b, a) # -1}
+MaxIdxBy(n, C(_, _)) == {a \in 1..n : \A b \in 1..n : C(b, a) # 1}
+
+\* the same, given the sequence of sort keys
+AllOrdered(keys) == AllOrderedBy(Len(keys), LAMBDA a, b : Ord(keys[a], keys[b]))
+StableSortPerm(keys, rev) == StableSortPermBy(Len(keys), LAMBDA a, b : Ord(keys[a], keys[b]), rev)
+IsStableSorted(keys, rev, perm) == IsStableSortedBy(Len(keys), LAMBDA a, b : Ord(keys[a], keys[b]), rev, perm)
+MinIdx(keys) == MinIdxBy(Len(keys), LAMBDA a, b : Ord(keys[a], keys[b]))
+MaxIdx(keys) == MaxIdxBy(Len(keys), LAMBDA a, b : Ord(keys[a], keys[b]))
 =============================================================================
